@@ -1,4 +1,4 @@
 import Driver.Loop
-import Driver.ExecOps
+import Driver.AsyncExecOps
 
-def main : IO Unit := Driver.run Driver.ExecOps.handle
+def main : IO Unit := Driver.run Driver.AsyncExecOps.handle
